@@ -649,6 +649,8 @@ BAD_ATTRS_FN = [
     "pub(in) Foo", "Foo, no_deps,", "Foo, mock_api = Self", "Foo, unimock = true = false", "Foo, debug = false",
     "crate::Foo", "Foo<T>", "Foo, ?Send = true", "Foo, mock_api = r#type", "Foo, export, export = false, export",
     "_", "Foo, _", "Foo, true",
+    "Foo, ?no_deps", "Foo, ?export", "Foo, ?debug", "Foo, ?unimock", "Foo, ?mockall = true", "Foo, ?mock_api = M", "Foo, ? Send", "Foo, ??Send",
+    "Foo, Send", "Foo, ?send",
 ]
 BAD_ATTRS_TRAIT = [
     "no_deps", "export", "export = false", "FooImpl", "FooImpl,", "FooImpl delegate_by = ref", "delegate_by = Deleg",
@@ -656,9 +658,11 @@ BAD_ATTRS_TRAIT = [
     "pub FooImpl, delegate_by = ref", "unimock = 3", "mock_api", "FooImpl, delegate_by = ref,", "delegate_by = ref ref",
     "pub", "?Send, ?Send", "FooImpl, delegate_by = Borrow", "debug = false", "delegate_by = Borrow", "mockall, unimock,",
     "FooImpl, delegate_by = ref, delegate_by = Deleg", "FooImpl, delegate_by = Deleg, delegate_by = ref", "unimok",
+    "?delegate_by = ref", "?mockall", "?unimock = false", "?mock_api = M", "FooImpl, ?delegate_by = ref", "?debug", "Send", "? Send",
 ]
 BAD_ATTRS_IMPL = ["Foo", "ref,", "ref, debug", "dyn ref", "ref ref", "no_deps", "debug, debug = false", "ref debug = false",
-                  "unimock", "debug = 1", "dyn debug = false, ", "export", "?Send", "bogus", "ref bogus", "debug = false debug"]
+                  "unimock", "debug = 1", "dyn debug = false, ", "export", "?Send", "bogus", "ref bogus", "debug = false debug",
+                  "?debug", "ref ?debug", "?debug = false"]
 BAD_ITEMS = [
     "struct Sx;", "enum Ex { A }", "impl MyType { pub fn f(d: &impl A) {} }", "mod outline;", "auto trait Au {}",
     "unsafe mod um {}", "unsafe auto trait Uat {}", "const CX: i32 = 1;",
